@@ -3,7 +3,8 @@ from pyvc.api import *
 
 PROP = 'C20'
 REPLAYERS = {q: 'replayers/manager_refs.py' for q in (
-    'managers.Server.incref', 'managers.Server.decref', 'managers.Server.create', 'managers.Server.handle_request')}
+    'managers.Server.incref', 'managers.Server.decref', 'managers.Server.create', 'managers.Server.handle_request',
+    'managers.Server.serve_client', 'managers.dispatch')}
 
 ASSUMPTIONS = [
     'deliver_challenge / answer_challenge have the contracts proved in C18 (they return only for a peer that holds the key; '
@@ -12,13 +13,19 @@ ASSUMPTIONS = [
     'contract: they yield the object, its exposed methods and its id string and touch no table',
     'one request at a time inside the mutex (the handlers of concurrent clients are serialised by it: guarded-by obligations '
     'check that the tables are only touched while it is held)',
+    'serve_client: the connection (recv: a request, a malformed request or end of stream; send: delivers or raises), '
+    'getattr(obj, name) (the method or AttributeError), the referent\'s method (returns, raises an Exception, or raises a '
+    'BaseException), `name in exposed` (an uninterpreted relation), the fallback table lookup, format_exc, repr, Token and the '
+    'result-type lookup are assumed contracts; Server.create is used through its contract',
+    'dispatch: the answer is a (kind, body) pair of one of the five kinds the server sends; type(body) is str or not',
 ]
 OUT_OF_REACH = [
     'that a proxy operation returns what the same operation on a local object would (the referent is foreign code; pickling)',
     'atomicity of single operations from concurrent clients beyond "the tables are touched under the mutex"; the lifetime of '
     'a referent across processes is the induction over incref/decref calls (meta-argument) plus the finalizers that issue '
     'them (BaseProxy._incref/_decref, util.Finalize: not under contract)',
-    'Server.serve_client (dispatch restricted to exposed methods) is not under contract',
+    'BaseProxy._callmethod (the proxy method that wraps dispatch: thread-local connection, #PROXY answers) is not under '
+    'contract; managers.dispatch, the function it shares the answer handling with, is',
 ]
 
 RC, OBJ = 'self.id_to_refcount', 'self.id_to_obj'
@@ -84,9 +91,10 @@ def build(w):
                              'ident': ValS},
                  'raises': ['AnyException']}],
         ensures=dict(post_inv,
-                     registered_with_the_creators_reference='has(%s, final.ident) and has(%s, final.ident) and '
-                                                            'get(%s, final.ident) == ite(old(has(%s, final.ident)), '
-                                                            'old(get(%s, final.ident)), 0) + 1' % (OBJ, RC, RC, RC, RC)),
+                     registered_with_the_creators_reference='has(%s, result[0]) and has(%s, result[0]) and '
+                                                            'get(%s, result[0]) == ite(old(has(%s, result[0])), '
+                                                            'old(get(%s, result[0])), 0) + 1' % (OBJ, RC, RC, RC, RC)),
+        returns=tup(ValS, ValS),
         raises={'AnyException': {'tables_untouched': 'only_key_changed(%s) and only_key_changed(%s) and self.mutex.depth == old(self.mutex.depth)' % (OBJ, RC)}},
     )
 
@@ -139,7 +147,200 @@ def build(w):
             'connection_closed': 'g.closed == 1',
         },
     )
-    return [incref, decref, create, handle]
+    w.contracts['managers.Server.create'] = create
+    return [incref, decref, create, handle] + serve_contracts(w, tables, inv)
+
+
+# ---- the request loop of one client connection, and the client side of one call -----------------------------------
+Member = z3.Function('exposed_member', Val, Val, z3.BoolSort())      # methodname in exposed
+MethodOf = z3.Function('method_of', Val, Val, Val)                    # getattr(obj, methodname)
+
+
+def serve_contracts(w, tables, inv):
+    G = w.classes['g'].fields
+    G.update({'requests': IntS, 'answers': IntS, 'cur_ident': ValS, 'cur_method': ValS, 'ran': IntS, 'outcome': IntS,
+              'outcome_val': ValS, 'send_failures': IntS, 'fallbacks': IntS, 'typeid_lookups': IntS})
+    w.cls('StopEvent', fields={}, methods={'is_set': lambda ex, a, k: BoolS.fresh('stopped')})
+    w.classes['Server'].fields['stop_event'] = ref('StopEvent')
+    w.classes['Server'].fields['id_to_obj'] = dict_of(ValS, tup(ValS, ValS, ValS))
+    w.cls('ConnS', fields={})
+
+    def recv(ex, args, kw):
+        k = ex.path.choose(3)
+        if k == 1:
+            raise_exc(ex, 'EOFError')
+        # anything but end-of-stream is a request that gets an answer (a malformed one gets the traceback)
+        gset(ex, 'requests', SV(IntS, gget(ex, 'requests').e + 1))
+        req = [SV(ValS, z3.Const(fresh_name('req_' + n), Val)) for n in ('ident', 'method', 'args', 'kwds')]
+        gset(ex, 'cur_ident', req[0])
+        gset(ex, 'cur_method', req[1])
+        for f in ('ran', 'outcome', 'send_failures', 'fallbacks', 'typeid_lookups'):
+            gset(ex, f, mk_int(0))
+        if k == 2:
+            raise_exc(ex, 'AnyException')          # a malformed request
+        return STup(req)
+
+    def entry(ex):
+        me = ex.root.scopes[0]['self']
+        table = ex.path.read_field(me, 'id_to_obj')
+        val = ex.path.read_field(table, 'val')
+        return val.shape.select(val, gget(ex, 'cur_ident'))
+
+    def call(ex, args, kw):
+        fn = args[0]
+        if z3.is_const(fn.e) and fn.e.decl().name().startswith('fallback_func'):
+            # __str__ / __repr__ / #GETVALUE of a referent that does not expose them: served by the server itself
+            prove(ex, 'dispatch.fallback_only_when_the_method_was_not_found', gget(ex, 'ran').e == 0)
+            gset(ex, 'fallbacks', SV(IntS, gget(ex, 'fallbacks').e + 1))
+            if ex.path.choose(2) == 1:
+                raise_exc(ex, 'AnyException')
+            return SV(ValS, z3.Const(fresh_name('fallback_result'), Val))
+        e = entry(ex)
+        prove(ex, 'dispatch.only_exposed_methods_of_the_addressed_object_run',
+              z3.And(Member(gget(ex, 'cur_method').e, e.items[1].e),
+                     fn.e == MethodOf(e.items[0].e, gget(ex, 'cur_method').e)))
+        prove(ex, 'dispatch.one_method_call_per_request', gget(ex, 'ran').e == 0)
+        gset(ex, 'ran', mk_int(1))
+        k = ex.path.choose(3)
+        if k == 0:
+            r = SV(ValS, z3.Const(fresh_name('method_result'), Val))
+            gset(ex, 'outcome', mk_int(1))
+            gset(ex, 'outcome_val', r)
+            return r
+        v = SV(ValS, z3.Const(fresh_name('raised_value'), Val))
+        gset(ex, 'outcome_val', v)
+        if k == 1:
+            gset(ex, 'outcome', mk_int(2))
+            raise_exc(ex, 'AnyException', v)
+        gset(ex, 'outcome', mk_int(3))
+        raise_exc(ex, 'AnyBaseException', v)          # KeyboardInterrupt / SystemExit in the referent: ends this thread
+
+    def send(ex, args, kw):
+        from pyvc.core import VExc, SStr
+        msg = args[1] if len(args) > 1 else args[0]
+        tag = msg.items[0].s if isinstance(msg.items[0], SStr) else None
+        body = msg.items[1]
+        retry = gget(ex, 'send_failures').e > 0
+        prove(ex, 'answer.one_answer_per_request', gget(ex, 'answers').e == gget(ex, 'requests').e - 1)
+        prove(ex, 'answer.at_most_one_retry', gget(ex, 'send_failures').e <= 1)
+        oc = gget(ex, 'outcome').e
+        ov = gget(ex, 'outcome_val').e
+        if tag == '#UNSERIALIZABLE':
+            prove(ex, 'answer.unserializable_only_after_a_failed_send', retry)
+        else:
+            prove(ex, 'answer.retry_says_unserializable', z3.Not(retry))
+            if tag == '#RETURN':
+                is_val = isinstance(body, SV) and body.shape is ValS
+                prove(ex, 'answer.the_method_result_is_returned_unchanged',
+                      z3.Or(z3.And(oc == 1, body.e == ov) if is_val else z3.BoolVal(False),
+                            z3.And(oc == 0, gget(ex, 'fallbacks').e == 1)))
+            elif tag == '#ERROR':
+                same = isinstance(body, VExc) and len(body.args) == 1 and isinstance(body.args[0], SV)
+                prove(ex, 'answer.the_exception_of_the_referent_is_passed_on',
+                      z3.And(oc == 2, body.args[0].e == ov) if same else z3.BoolVal(False))
+            elif tag == '#PROXY':
+                prove(ex, 'answer.proxy_only_for_a_returned_object', oc == 1)
+            elif tag == '#TRACEBACK':
+                # (a result for which a proxy was asked for but could not be created is answered with the traceback too)
+                prove(ex, 'answer.traceback_only_when_no_method_result_exists',
+                      z3.Or(oc == 0, z3.And(oc == 1, gget(ex, 'typeid_lookups').e == 1)))
+            else:
+                prove(ex, 'answer.known_kind', z3.BoolVal(False))
+        if ex.path.choose(2) == 1:
+            gset(ex, 'send_failures', SV(IntS, gget(ex, 'send_failures').e + 1))
+            raise_exc(ex, 'AnyException')
+        gset(ex, 'answers', SV(IntS, gget(ex, 'answers').e + 1))
+        return SNone()
+
+    def close(ex, args, kw):
+        gset(ex, 'closed', SV(IntS, gget(ex, 'closed').e + 1))
+        return SNone()
+    w.classes['ConnS'].methods.update({'recv': recv, 'send': send, 'close': close})
+
+    def dyn_getattr(ex, args, kw):
+        if ex.path.choose(2) == 1:
+            raise_exc(ex, 'AttributeError')
+        return SV(ValS, MethodOf(args[0].e, args[1].e))
+
+    def fallback_lookup(ex):
+        """self.fallback_mapping: a class-level dict of three server methods"""
+        return SV(ValS, z3.Const('fallback_mapping', Val))
+
+    def opaque_getitem(ex, args, kw):
+        if ex.path.choose(2) == 1:
+            raise_exc(ex, 'KeyError')
+        return SV(ValS, z3.Const(fresh_name('fallback_func'), Val))
+    def typeid_lookup(ex, args, kw):
+        """gettypeid.get(methodname, None): the type a proxy is to be made of for this method's result, if any"""
+        gset(ex, 'typeid_lookups', SV(IntS, gget(ex, 'typeid_lookups').e + 1))
+        return SV(ValS, z3.Const(fresh_name('typeid'), Val))
+    w.global_overrides['managers.Server.fallback_mapping'] = fallback_lookup
+    cnt = 'g.answers == g.requests'
+    serve = Contract(
+        'managers.Server.serve_client', prop=PROP, params={'self': ref('Server'), 'conn': ref('ConnS')},
+        externals={'getattr<dynamic>': dyn_getattr, '<callable>': call,
+                   'contains<opaque>': lambda ex, a, k: SV(BoolS, Member(a[0].e, a[1].e)),
+                   'managers.format_exc': lambda ex, a, k: SV(ValS, z3.Const(fresh_name('tb'), Val)),
+                   'traceback.format_exc': lambda ex, a, k: SV(ValS, z3.Const(fresh_name('tb'), Val)),
+                   'getitem<opaque>': opaque_getitem,
+                   'sys.exit': lambda ex, a, k: raise_exc(ex, 'SystemExit', *a),
+                   '<opaque>.get': typeid_lookup,
+                   'truth<opaque>': lambda ex, a, k: BoolS.fresh('truthy'),
+                   'managers.Token': lambda ex, a, k: SV(ValS, z3.Const(fresh_name('token'), Val)),
+                   'builtins.repr': lambda ex, a, k: SV(ValS, z3.Const(fresh_name('repr'), Val)),
+                   'builtins.type': lambda ex, a, k: SV(ValS, z3.Const(fresh_name('type'), Val))},
+        requires=dict(inv, stop='allocated(self.stop_event)', fresh='g.requests == 0 and g.answers == 0 and g.closed == 0'),
+        modifies=['g.*', RC + '.*', OBJ + '.*', 'self.mutex.depth'],
+        loops={('managers.Server.serve_client', 0): {
+            'inv': dict(inv, every_request_so_far_was_answered_once=cnt, still_open='g.closed == 0',
+                        stop='allocated(self.stop_event)'),
+            'modifies': ['g.*', RC + '.*', OBJ + '.*', 'self.mutex.depth'],
+            'locals': {'methodname': opt(ValS), 'obj': opt(ValS), 'request': tup(ValS, ValS, ValS, ValS), 'ident': ValS,
+                       'args': ValS, 'kwds': ValS, 'exposed': ValS, 'gettypeid': ValS, 'function': ValS, 'res': ValS,
+                       'typeid': ValS, 'rident': ValS, 'rexposed': ValS, 'token': ValS, 'fallback_func': ValS,
+                       'result': ValS}}},
+        ensures={'every_request_was_answered_exactly_once': cnt},
+        raises={'SystemExit': {'left_at_end_of_stream_or_after_a_failed_answer':
+                               '(g.answers == g.requests and g.closed == 0) or '
+                               '(g.answers == g.requests - 1 and g.send_failures == 2 and g.closed == 1)'},
+                'AnyBaseException': {'only_from_the_referent': 'g.outcome == 3 and g.answers == g.requests - 1'}},
+    )
+
+    # the client side of one call: what the proxy hands back to its caller
+    w.cls('ConnC', fields={})
+
+    def c_send(ex, args, kw):
+        gset(ex, 'sent', SV(IntS, gget(ex, 'sent').e + 1))
+        return SNone()
+
+    def c_recv(ex, args, kw):
+        from pyvc.core import SStr
+        k = ex.path.choose(5)
+        body = SV(ValS, z3.Const(fresh_name('answer_body'), Val))
+        gset(ex, 'outcome', mk_int(k))
+        gset(ex, 'outcome_val', body)
+        return STup([SStr(['#RETURN', '#ERROR', '#TRACEBACK', '#UNSERIALIZABLE', '#OTHER'][k]), body])
+    w.classes['ConnC'].methods.update({'send': c_send, 'recv': c_recv})
+
+    def type_of(ex, args, kw):
+        from pyvc.core import VExternal
+        if ex.path.choose(2) == 1:
+            return VExternal('builtins.bytes')
+        return VExternal('builtins.str')
+    disp = Contract(
+        'managers.dispatch', prop=PROP, params={'c': ref('ConnC'), 'id': ValS, 'methodname': ValS, 'args': ValS, 'kwds': ValS},
+        inline=['managers.convert_to_error'],
+        externals={'builtins.type': type_of},
+        requires={'fresh': 'g.sent == 0'},
+        modifies=['g.sent', 'g.outcome', 'g.outcome_val'],
+        ensures={'the_value_the_server_returned': 'g.outcome == 0 and result == g.outcome_val and g.sent == 1'},
+        # '<opaque>': `raise <the object received>` -- the referent's own exception, re-raised in the caller
+        raises={'<opaque>': {'the_exception_the_referent_raised': 'g.outcome == 1'},
+                'RemoteError': {'server_side_failure': 'g.outcome == 2 or g.outcome == 3'},
+                'AssertionError': {'server_side_failure_with_a_malformed_text': 'g.outcome == 2 or g.outcome == 3'},
+                'ValueError': {'unknown_kind': 'g.outcome == 4'}},
+    )
+    return [serve, disp]
 
 
 MANIFEST_ENTRY = {
@@ -151,9 +352,18 @@ MANIFEST_ENTRY = {
             'touches another object\'s entries, and the tables are only touched while the server mutex is held (guarded-by '
             'obligations).  handle_request runs both challenges before it reads a request, dispatches at most one public '
             'method and only after both challenges returned, always answers (the error text if the method raised) and always '
-            'closes the connection.',
+            'closes the connection.  serve_client (loop invariant over any number of requests): every request that is not the '
+            'end of the stream gets exactly one answer (one retry saying #UNSERIALIZABLE if the answer cannot be sent); the only '
+            'callable run for a request is getattr(obj, methodname) of the object the request addresses, once, and only if '
+            'methodname is in that object\'s exposed set (the three server-side fallbacks run only when no method ran); a '
+            'returned value goes back unchanged as #RETURN, an Exception raised by the referent goes back as #ERROR carrying '
+            'that very exception and is never replaced by a traceback; the loop is left only at end of stream, after a failed '
+            'answer (connection closed, status 1) or by a BaseException of the referent.  managers.dispatch (client side): '
+            'returns the body of a #RETURN answer unchanged, re-raises the body of an #ERROR answer, raises RemoteError for '
+            '#TRACEBACK / #UNSERIALIZABLE and ValueError otherwise, after sending exactly one request.',
     'note': 'Sequential core only: atomicity under concurrent clients is reduced to the mutex discipline; that proxy operations '
-            'return what local ones would, serve_client\'s exposed-method gate, and the proxies\' own incref/decref calls '
-            '(finalizers) are not under contract.  The challenge functions are used through C18\'s contracts (here: return or '
-            'raise).',
+            'return what local ones would is covered as far as "the server hands back the referent\'s own result / exception '
+            'unchanged and the client hands that on" (pickling and the referent are foreign code); BaseProxy._callmethod and the '
+            'proxies\' own incref/decref calls (finalizers) are not under contract.  The challenge functions are used through '
+            'C18\'s contracts (here: return or raise).',
 }
